@@ -508,3 +508,94 @@ def apply_with(expr: dict, fits: typing.Iterable[Term], xa: Term) -> Term:
         if f.op == 'fit':
             table.setdefault(f.args[0], []).append(f)
     return _apply(expr, table, xa)
+
+
+# ------------------------------------------------------------------------------------------------ concrete payloads (C12)
+class FixedCV:
+    """Cross-validator returning explicitly given (train, test) index lists - any splitter decision, incl.
+    non-complementary, overlapping or gapped parts."""
+
+    def __init__(self, pairs):
+        self.pairs = [(list(tr), list(te)) for tr, te in pairs]
+
+    def split(self, features, labels=None, groups=None, /):
+        return [(list(tr), list(te)) for tr, te in self.pairs]
+
+    def get_n_splits(self, *_):
+        return len(self.pairs)
+
+
+class ListFolds(payload.CVFoldable):
+    """CVFoldable over plain python lists."""
+
+    @classmethod
+    def split(cls, features, indices):
+        return tuple(part for train, test in indices for part in ([features[i] for i in train], [features[i] for i in test]))
+
+
+class Const(flow.Actor):
+    """Stateless source: returns the configured value."""
+
+    def __init__(self, value):
+        self.value = value
+
+    def apply(self, *_):
+        return list(self.value)
+
+    def get_params(self):
+        return {'value': self.value}
+
+    def set_params(self, **params):
+        self.value = params.get('value', self.value)
+
+
+class Unzip(flow.Actor):
+    """Label extractor: rows (rid, label) -> ([rid...], [label...])."""
+
+    def apply(self, rows):
+        return [r[0] for r in rows], [r[1] for r in rows]
+
+
+class Recorder(flow.Actor):
+    """Stateful model remembering the record ids (and labels) it was trained on; predicts (rid, trained-on ids)."""
+
+    def __init__(self, tag: str = 'm'):
+        self.tag = tag
+        self.seen = None
+        self.labels = None
+
+    def train(self, features, labels, /):
+        self.seen = tuple(sorted(_rid(f) for f in features))
+        self.labels = tuple(sorted(labels))
+
+    def apply(self, features):
+        return [(_rid(f), self.tag, self.seen, self.labels) for f in features]
+
+    def get_params(self):
+        return {'tag': self.tag}
+
+    def set_params(self, **params):
+        self.tag = params.get('tag', self.tag)
+
+
+def _rid(value):
+    """Record id of a raw record or of an upstream prediction tuple."""
+    while isinstance(value, tuple):
+        value = value[0]
+    return value
+
+
+def pair_metric(true, pred):
+    return ('scored', list(true), list(pred))
+
+
+def pair_reduce(*values):
+    return ('reduced', *values)
+
+
+def concat_rows(*parts):
+    return [row for part in parts for row in part]
+
+
+def zip_columns(*columns):
+    return [tuple(cells) for cells in zip(*columns)]
